@@ -449,6 +449,14 @@ func (x *Evaluator) evalU(v ssa.Value, e *env, c *evalCtx) Val {
 			// make([]T, 0, n): the empty list; what is appended later is modelled by append
 			return ListV{IsFinite: true, Origin: "made-empty"}
 		}
+		if lc, ok := v.Len.(*ssa.Call); ok {
+			// make([]T, len(X)): the same index set as X
+			if bi, ok := lc.Call.Value.(*ssa.Builtin); ok && bi.Name() == "len" {
+				if l, ok := x.evalC(lc.Call.Args[0], e, c).(ListV); ok && l.Origin != "" {
+					return ListV{Elem: x.symbolic(v.Type().Underlying().(*types.Slice).Elem(), "makeslice"), Origin: l.Origin}
+				}
+			}
+		}
 		return ListV{Elem: x.symbolic(v.Type().Underlying().(*types.Slice).Elem(), "makeslice"), Origin: "makeslice"}
 	}
 	return OpaqueV{fmt.Sprintf("unmodelled:%T", v)}
